@@ -52,6 +52,9 @@ def main():
             r = sh('cd %s && CHYTHON_REPO=%s %s %s/tools/fulltests.py 2>&1 | tail -1' % (wt, wt, PY, HERE))
             out['full_suite_under_shim'] = r.stdout.strip()
         demo = os.path.join(d, 'demo.py')
+        extras = [f for f in os.listdir(d) if f.endswith('.py') and f != 'demo.py']
+        for f in extras:        # helper modules a demonstration imports (kept beside it)
+            shutil.copy(os.path.join(d, f), os.path.join(scratch, f))
         if os.path.exists(demo):
             src = open(demo).read()
             for tag, tree in (('mutant', wt), ('clean', '/repo')):
@@ -59,7 +62,7 @@ def main():
                 s2 = re.sub(r"/tmp/seed_C\d+", tree, src)
                 p = os.path.join(scratch, 'demo_%s.py' % tag)
                 open(p, 'w').write(s2)
-                r = sh([PY, p], timeout=900)
+                r = sh([PY, p], timeout=900, env=dict(os.environ, PYTHONPATH=scratch))
                 out['demo_' + tag] = {'exit': r.returncode, 'tail': (r.stdout + r.stderr).strip().splitlines()[-2:]}
         for c in checks:
             t0 = time.time()
